@@ -649,3 +649,21 @@ def _differences_soundness():
 
 
 _differences_soundness()
+
+
+# BatchMultiplyG (comb method; the regrouping of the scalar's bits is outside the front end, the function stays an assumed
+# contract decided by the bounded tier).  Second, partial contract: "for any integers, negative or beyond the order" rests
+# on the first statement - every scalar is replaced by its canonical residue modulo the group order before the comb
+# reads its bits (the two's complement expansion of a negative integer never ends).
+@contract(f"{E}::EcCurve.BatchMultiplyG#reduce")
+class BatchMultiplyGReduce:
+  params = {"scalars": "list[int]"}
+  self_fields = {"a": "int", "b": "int", "mod": "int", "n": "int", "h": "int", "g": "tuple[int,int]"}
+  returns = "opaque"
+  requires = ["self.n >= 2"]
+  entry_ghost = ["g_in = scalars"]
+  on_assign = {"scalars@0": [
+      "assert [C11] len(scalars) == len(g_in)",
+      "assert [C11] forall(k, 0, len(g_in), 0 <= scalars[k] and scalars[k] < self.n and (scalars[k] - g_in[k]) % self.n == 0)",
+      "stop"]}
+  props = ["C11"]
